@@ -179,6 +179,10 @@ PROBES = {
                  "EQUILIBRIUM_PHASES 1\n Calcite 0 0\nSELECTED_OUTPUT 1\n -totals Ca C(4)\n"
                  "USER_PUNCH 1\n-headings r13 r18\n10 PUNCH CALC_VALUE(\"R(13C)\"), CALC_VALUE(\"R(18O)\")\nEND\n"),
     "isotope_option": "SOLUTION 1\n pH 7\n Na 1\n Cl 1\n C(4) 2\n -isotope 13C -12 1\n -isotope 34S 5 1\n S(6) 1\nEND\n",
+    # host callback: CALLBACK(x1, x2, "str") gives 0 unless a host function is registered with SetBasicCallback (not a survivor)
+    "callback": ("SOLUTION 1\n" + SOL_ALT + "REACTION 1\n NaCl 1\n 1 2 mmol\nSELECTED_OUTPUT 1\n -reset false\nUSER_PUNCH 1\n-headings cb1 cb2\n"
+                 "10 PUNCH CALLBACK(1, 2, \"abc\"), CALLBACK(STEP_NO, 0.5, \"history\")\n"
+                 "USER_PRINT\n10 PRINT \"callback\", CALLBACK(3, 4, \"print\")\nEND\n"),
     # mixing, copying, saving
     "mix_copy": ("SOLUTION 1\n" + SOL_BASE + "SOLUTION 2\n" + SOL_ALT + "END\nMIX 1\n 1 0.25\n 2 0.75\nSAVE solution 3\n"
                  "SELECTED_OUTPUT 1\n -totals Na Cl\nEND\nCOPY solution 3 4-5\nEND\nRUN_CELLS\n -cells 3-5\nEND\n"),
@@ -194,5 +198,6 @@ RELATED = {
     "kinetics": ["kinetics", "leftover_rate", "basic_memory"], "model": ["brine", "plain", "temp_press"],
     "isotopes": ["isotopes", "isotope_option", "plain"], "entities": ["leftover_use", "leftover_cells", "dump_all", "mix_copy"],
     "species": ["leftover_species", "plain"], "surface": ["surface_dl"], "gas": ["gas_ss"], "inverse": ["inverse"],
+    "callback": ["callback", "callback", "basic_memory"],
     "fail": ["solver_trace", "plain", "leftover_cells", "dump_all", "mix_copy"], "temp": ["temp_press", "plain"],
 }
